@@ -566,4 +566,208 @@ theorem bound_run (s : Store) (ops : List Op) (hf : FreshHist valid s ops) (h : 
 
 end KS
 
+/-! ### key material does not flow into reference rows, entry names, audit records, outcomes -/
+
+
+
+theorem alGet_isSome {ν : Type} (m : List (String × ν)) (k : String) :
+    (alGet m k).isSome = (m.map (·.1)).contains k := by
+  induction m with
+  | nil => rfl
+  | cons p rest ih =>
+    rw [alGet_cons, List.map_cons, List.contains_cons]
+    by_cases h : p.1 = k
+    · simp [h]
+    · have : (k == p.1) = false := by simpa using fun e => h e.symm
+      simp [h, ih, this]
+
+theorem alPut_names {ν : Type} (m : List (String × ν)) (k : String) (v : ν) :
+    (alPut m k v).map (·.1) = k :: (m.map (·.1)).filter (fun x => !(x == k)) := by
+  unfold alPut
+  rw [List.map_cons, List.filter_map]
+  rfl
+
+theorem alDel_names {ν : Type} (m : List (String × ν)) (k : String) :
+    (alDel m k).map (·.1) = (m.map (·.1)).filter (fun x => !(x == k)) := by
+  unfold alDel
+  rw [List.filter_map]
+  rfl
+
+theorem same_key_isSome {s t : Store} (h : SameButKeys s t) (n : String) : (s.key n).isSome = (t.key n).isSome := by
+  unfold Store.key
+  rw [alGet_isSome, alGet_isSome, h.2]
+
+theorem same_ref {s t : Store} (h : SameButKeys s t) (kid : String) : s.ref kid = t.ref kid := by
+  unfold Store.ref; rw [h.1]
+
+section
+variable (valid : String → Bool)
+
+theorem same_wGet {s t : Store} (h : SameButKeys s t) (n v : String) :
+    resErr (wGet valid s n v) = resErr (wGet valid t n v) := by
+  unfold wGet
+  have := same_key_isSome h n
+  cases hs : s.key n <;> cases ht : t.key n <;> simp [hs, ht] at this <;> split <;> simp [resErr]
+
+theorem same_getPrivateKey {s t : Store} (h : SameButKeys s t) (kid : String) :
+    resErr (getPrivateKey valid s kid) = resErr (getPrivateKey valid t kid) := by
+  unfold getPrivateKey findRef
+  rw [same_ref h kid]
+  cases t.ref kid with
+  | none => rfl
+  | some r =>
+    simp only
+    have := same_wGet valid h r.keyName r.version
+    cases hs : wGet valid s r.keyName r.version <;> cases ht : wGet valid t r.keyName r.version <;>
+      simp [hs, ht, resErr] at this
+    · subst this; rename_i e; cases e <;> rfl
+    · rfl
+end
+
+section
+variable (valid : String → Bool)
+
+theorem same_resolve {s t : Store} (h : SameButKeys s t) (kid : String) :
+    resErr (resolve valid s kid) = resErr (resolve valid t kid) := same_getPrivateKey valid h kid
+
+theorem same_saveRef {s t : Store} (h : SameButKeys s t) (kid : String) (r : KeyRef) :
+    (∃ e, saveRef s kid r = .error e ∧ saveRef t kid r = .error e) ∨
+    (∃ s' t', saveRef s kid r = .ok s' ∧ saveRef t kid r = .ok t' ∧ SameButKeys s' t') := by
+  unfold saveRef
+  rw [same_ref h kid]
+  split
+  · exact Or.inl ⟨_, rfl, rfl⟩
+  · exact Or.inr ⟨_, _, rfl, rfl, by simp [SameButKeys, h.1, h.2]⟩
+
+theorem same_link {s t : Store} (h : SameButKeys s t) (kid n v : String) :
+    SameButKeys (link s kid n v).1 (link t kid n v).1 ∧ resErr (link s kid n v).2 = resErr (link t kid n v).2 := by
+  unfold link
+  rcases same_saveRef h kid { keyName := n, version := v } with ⟨e, h1, h2⟩ | ⟨s', t', h1, h2, hR⟩
+  · simp [h1, h2, h, resErr]
+  · simp only [h1, h2]
+    exact ⟨⟨hR.1, hR.2⟩, by first | rfl | trivial⟩
+
+theorem same_migrateOne {s t : Store} (h : SameButKeys s t) (name : String) :
+    SameButKeys (migrateOne s name) (migrateOne t name) := by
+  unfold migrateOne
+  rw [h.1]
+  split
+  · exact h
+  · exact (same_link h name name "1").1
+
+theorem same_migrate {s t : Store} (h : SameButKeys s t) : SameButKeys (migrate s) (migrate t) := by
+  unfold migrate migrateNames fsListOrder
+  rw [h.2]
+  generalize sortBy _ (t.backend.map (·.1)) = names
+  induction names generalizing s t with
+  | nil => exact h
+  | cons n rest ih => exact ih (same_migrateOne h n)
+
+theorem same_new {s t : Store} (h : SameButKeys s t) (name : String) (naming : Option String) :
+    SameButKeys (new s name naming).1 (new t name naming).1 ∧ resErr (new s name naming).2 = resErr (new t name naming).2 := by
+  unfold new wNew
+  have hk := same_key_isSome h name
+  have hs' : ({ s with nextKey := s.nextKey + 1 } : Store).key name = s.key name := rfl
+  have ht' : ({ t with nextKey := t.nextKey + 1 } : Store).key name = t.key name := rfl
+  simp only [hs', ht']
+  cases hs : s.key name <;> cases ht : t.key name <;> simp [hs, ht] at hk
+  · -- both create the key
+    have hR1 : SameButKeys { s with nextKey := s.nextKey + 1, backend := alPut s.backend name s.nextKey }
+        { t with nextKey := t.nextKey + 1, backend := alPut t.backend name t.nextKey } := by
+      refine ⟨h.1, ?_⟩
+      simp only [alPut_names, h.2]
+    cases naming with
+    | none => exact ⟨hR1, rfl⟩
+    | some kid =>
+      simp only
+      rcases same_saveRef hR1 kid { keyName := name, version := "1" } with ⟨e, h1, h2⟩ | ⟨s', t', h1, h2, hR⟩
+      · simp only [h1, h2]; exact ⟨hR1, by first | rfl | trivial⟩
+      · simp only [h1, h2]; exact ⟨⟨hR.1, hR.2⟩, by first | rfl | trivial⟩
+  · exact ⟨⟨h.1, h.2⟩, rfl⟩
+
+theorem same_wDelete {s t : Store} (h : SameButKeys s t) (name : String) :
+    (∃ e, wDelete valid s name = .error e ∧ wDelete valid t name = .error e) ∨
+    (∃ s' t', wDelete valid s name = .ok s' ∧ wDelete valid t name = .ok t' ∧ SameButKeys s' t') := by
+  unfold wDelete
+  have hk := same_key_isSome h name
+  by_cases hv : valid name = true
+  · cases hs : s.key name <;> cases ht : t.key name <;> simp [hs, ht] at hk
+    · exact Or.inl ⟨.spiNotFound, by simp [hv], by simp [hv]⟩
+    · refine Or.inr ⟨{ s with backend := alDel s.backend name }, { t with backend := alDel t.backend name },
+        by simp [hv], by simp [hv], h.1, ?_⟩
+      simp only [alDel_names, h.2]
+  · exact Or.inl ⟨.invalidKid, by simp [hv], by simp [hv]⟩
+
+theorem same_delete {s t : Store} (h : SameButKeys s t) (kid : String) :
+    SameButKeys (delete valid s kid).1 (delete valid t kid).1 ∧
+    resErr (delete valid s kid).2 = resErr (delete valid t kid).2 := by
+  unfold delete findRef
+  rw [same_ref h kid]
+  cases t.ref kid with
+  | none => exact ⟨h, rfl⟩
+  | some r =>
+    simp only
+    have hR1 : SameButKeys { s with refs := alDel s.refs kid, published := alDel s.published kid }
+        { t with refs := alDel t.refs kid, published := alDel t.published kid } := ⟨by simp [h.1], h.2⟩
+    rcases same_wDelete valid hR1 r.keyName with ⟨e, h1, h2⟩ | ⟨s', t', h1, h2, hR⟩
+    · simp only [h1, h2]; exact ⟨hR1, by first | rfl | trivial⟩
+    · simp only [h1, h2]; exact ⟨hR, by first | rfl | trivial⟩
+
+theorem same_save {s t : Store} (h : SameButKeys s t) (name : String) :
+    SameButKeys (step valid s (.save name)) (step valid t (.save name)) := by
+  rw [step_save, step_save]
+  unfold wSave
+  have hk := same_key_isSome h name
+  by_cases hv : valid name = true
+  · cases hs : s.key name <;> cases ht : t.key name <;> simp [hs, ht] at hk
+    · simp only [hv, Bool.not_true, Bool.false_eq_true, if_false]
+      refine ⟨h.1, ?_⟩
+      simp only [alPut_names, h.2]
+    · simpa [hv] using h
+  · simpa [hv] using h
+
+theorem same_step {s t : Store} (h : SameButKeys s t) (op : Op) : SameButKeys (step valid s op) (step valid t op) := by
+  cases op with
+  | new n f => exact (same_new h n f).1
+  | link k n v => exact (same_link h k n v).1
+  | delete k => exact (same_delete valid h k).1
+  | migrate => exact same_migrate h
+  | save n => exact same_save valid h n
+
+theorem same_run {s t : Store} (h : SameButKeys s t) (ops : List Op) : SameButKeys (run valid s ops) (run valid t ops) := by
+  induction ops generalizing s t with
+  | nil => exact h
+  | cons op rest ih => exact ih (same_step valid h op)
+
+theorem same_audit {s t : Store} (h : SameButKeys s t) (r : Req) : auditOf valid s r = auditOf valid t r := by
+  cases r with
+  | op o =>
+    cases o with
+    | new n f =>
+      simp only [auditOf, wNew]
+      have hk := same_key_isSome h n
+      have hs' : ({ s with nextKey := s.nextKey + 1 } : Store).key n = s.key n := rfl
+      have ht' : ({ t with nextKey := t.nextKey + 1 } : Store).key n = t.key n := rfl
+      simp only [hs', ht']
+      cases hs : s.key n <;> cases ht : t.key n <;> simp [hs, ht] at hk <;> cases f <;> rfl
+    | delete k =>
+      simp only [auditOf, findRef, same_ref h k]
+    | link _ _ _ => rfl
+    | migrate => rfl
+    | save _ => rfl
+  | sign how kid iss sub =>
+    simp only [auditOf]
+    have := same_getPrivateKey valid h kid
+    cases hs : getPrivateKey valid s kid <;> cases ht : getPrivateKey valid t kid <;> simp [hs, ht, resErr] at this <;> rfl
+  | decryptJWE kid c =>
+    simp only [auditOf]
+    have := same_getPrivateKey valid h kid
+    cases hs : getPrivateKey valid s kid <;> cases ht : getPrivateKey valid t kid <;> simp [hs, ht, resErr] at this <;> rfl
+  | resolve _ => rfl
+  | keyExists _ => rfl
+  | list => rfl
+  | decrypt _ _ => rfl
+
+end
+
 end Nuts.C03
